@@ -172,6 +172,9 @@ func mainSched() {
 	th := R.Thorough()
 	var light, heavy []string
 	for i := range ops {
+		if freeOnly[ops[i].name] {
+			continue
+		}
 		soloResult(&ops[i])
 		if ops[i].heavy {
 			heavy = append(heavy, ops[i].name)
